@@ -272,3 +272,69 @@ Definition s5_ok (n : Z) (kinds : list Z) (obs : list Z) : bool :=
   nodupZ listing
   && forallb (fun x => (1 <=? x) && (x <=? n)) listing
   && forallb (fun j => memZ (40 + j) kinds || memZ j listing) (map Z.of_nat (seq 1 (Z.to_nat n))).
+
+(* ---------------------------------------------------------------------------------------------- *)
+(* Scenario 6 (C11): several AddBackend calls with ONE name against each other.  An add is one critical section of the
+   balancer lock: look the name up, refuse if it is listed, otherwise append.  shared: the listed names; local: the call's
+   answer (0 running, 1 added, 2 refused). *)
+Definition DUP_NAME : Z := 7.
+Definition add_same : thr (list Z) Z :=
+  mkThr (fun s l pc => if memZ DUP_NAME s then (s, 2, None) else (s ++ [DUP_NAME], 1, None)) (fun _ => L_ADD).
+
+Definition s6_run (n : Z) (sched : list Z) : list Z * list (Z * Z) :=
+  let ths := repeat add_same (Z.to_nat n) in
+  let ts0 := repeat (mkTS 0 (Some 0)) (Z.to_nat n) in
+  let '(s, ts, trace) := run_sched ths [1; 2] ts0 sched [] in
+  (count_id DUP_NAME s :: map (fun st => ts_local st) ts, trace).
+
+(* the claim on the outcome: the name is listed once, exactly one call was answered "added", the others were refused *)
+Definition s6_ok (obs : list Z) : bool :=
+  match obs with
+  | c :: rets => Z.eqb c 1 && Z.eqb (count_id 1 rets) 1 && forallb (fun r => Z.eqb r 1 || Z.eqb r 2) rets
+  | [] => false
+  end.
+
+(* ---------------------------------------------------------------------------------------------- *)
+(* Scenario 7 (C11): a request choosing its backend (findHealthyBackend, round robin, every backend healthy) while the pool is
+   changed under it (AddBackend of n7, RemoveBackend of n1).  The selection: [RLock: copy the pool] ; for every backend of the
+   copy [IsBackendHealthy:RLock] ; [NextBackend:RLock: advance the rotation over the pool as it is NOW, choose] - and, still
+   inside that section, [markedHealthy:RLock of the chosen one] ; [IsBackendHealthy:RLock of the chosen one].  It never holds the
+   balancer's lock from one section into the next (except for the nested markedHealthy), so a writer is never starved.
+   shared: (pool in strategy order, rotation counter); local: (copy, chosen backend; 0 = none).
+   pc: 0 copy | 100 + i health of copy[i] | 200 choose | 300 its flag | 400 its health. *)
+Definition L_AB_R : Z := 17.    (* AddBackend:RLock: not taken by the code this model describes *)
+Definition L_FHB_R : Z := 18.   (* findHealthyBackend:RLock *)
+
+Record s7st := mkS7 { s7_pool : list Z; s7_ctr : Z }.
+
+Definition selector : thr s7st (list Z * Z) :=
+  mkThr (fun s l pc =>
+           if Z.eqb pc 0 then
+             match s7_pool s with [] => (s, (s7_pool s, 0), Some 200) | _ => (s, (s7_pool s, 0), Some 100) end
+           else if pc <? 200 then
+             (s, l, Some (if pc - 100 + 1 <? zlen (fst l) then pc + 1 else 200))
+           else if Z.eqb pc 200 then
+             match s7_pool s with
+             | [] => (s, (fst l, 0), None)
+             | p => let c := s7_ctr s + 1 in (mkS7 p c, (fst l, nth (Z.to_nat (c mod zlen p)) p 0), Some 300)
+             end
+           else if Z.eqb pc 300 then (s, l, Some 400)
+           else (s, l, None))
+        (fun pc => if Z.eqb pc 0 then L_FHB_R else if pc <? 200 then L_IBH_R else if Z.eqb pc 200 then L_NB_R else if Z.eqb pc 300 then L_MH else L_IBH_R).
+
+Definition pool_writer (k : Z) : thr s7st (list Z * Z) :=
+  if Z.eqb k 51 then mkThr (fun s l pc => (mkS7 (if memZ 7 (s7_pool s) then s7_pool s else s7_pool s ++ [7]) (s7_ctr s), l, None)) (fun _ => L_ADD)
+  else mkThr (fun s l pc => (mkS7 (rm_swap 1 (s7_pool s)) (s7_ctr s), l, None)) (fun _ => L_REMOVE).
+
+(* thread kinds: 50 = a selection, 51 = AddBackend n7, 52 = RemoveBackend n1 *)
+Definition s7_thread (k : Z) : thr s7st (list Z * Z) := if Z.eqb k 50 then selector else pool_writer k.
+
+Definition s7_run (kinds : list Z) (sched : list Z) : list Z * list (Z * Z) :=
+  let ths := map s7_thread kinds in
+  let ts0 := map (fun _ : Z => mkTS (([] : list Z), 0) (Some 0)) kinds in
+  let '(s, ts, trace) := run_sched ths (mkS7 [1; 2; 3] 0) ts0 sched [] in
+  (map (fun x => b2z (memZ x (s7_pool s))) [1; 2; 3; 7]
+   ++ flat_map (fun kt => if Z.eqb (fst kt) 50 then [snd (ts_local (snd kt))] else []) (combine kinds ts), trace).
+
+(* the claim on the outcome: every selection got a backend of the deployment (requests arriving during a change are served) *)
+Definition s7_ok (obs : list Z) : bool := forallb (fun x => memZ x [1; 2; 3; 7]) (skipn 4 obs).
